@@ -8,7 +8,7 @@
 From Coq Require Import ZArith List Bool.
 From Coq.Strings Require Import Byte String.
 From EsVerif.Common Require Import Base Bytes.
-From EsVerif.C01 Require Import Framing FramingProofs Model Spec Layout LayoutProofs Entry Gen GenProofs Big BigProofs Proofs Witness.
+From EsVerif.C01 Require Import Framing FramingProofs Model Spec Layout LayoutProofs Entry Gen GenProofs Big BigProofs Proofs Pyval PyvalProofs Uncond Frame FrameProofs RejectProofs Witness.
 Import ListNotations.
 Open Scope Z_scope.
 Open Scope list_scope.
@@ -232,6 +232,106 @@ Theorem C01_exec_read_is_model :
     exists size, sfile_read_c f dt = Ok (size, rows).
 Proof. exact sfile_read_c_is_model. Qed.
 
+(* ---- the Python layer made concrete (Pyval.v, Uncond.v): header values [pv] (int, float token,
+   None, bool, str, bytes, list, tuple, dict with str keys), a printer and a parser for Python's
+   literal syntax.  For every well-formed value the parser reads the printed text back. *)
+Theorem C01_pv_parse_print : forall v, wf v = true -> pv_parse (pv_print v) = Some v.
+Proof. exact pv_parse_print. Qed.
+
+Theorem C01_pv_print_injective : forall a b, wf a = true -> wf b = true -> pv_print a = pv_print b -> a = b.
+Proof. exact pv_print_inj. Qed.
+
+(* The printed header is one line without NUL / 0xFF bytes, none of whose lines is END: clause (a)
+   of H_pf, whatever text the keys and values contain. *)
+Theorem C01_pformat_text_ok : forall h, wf_items h = true -> hdr_text_ok (py_pformat h) = true.
+Proof. exact py_pformat_text_ok. Qed.
+
+(* The model of numpy.dtype reconstructs every packed dtype from its descr: clause (c). *)
+Theorem C01_np_dtype_descr : forall dt, wf_dtype dt = true -> py_np_dtype (py_vdescr dt) = Some dt.
+Proof. exact np_dtype_descr. Qed.
+
+(* Hence the contract H_pf — so far a hypothesis monitored per case — is a theorem for this
+   printer / parser / numpy.dtype model, for every well-formed header and dtype ... *)
+Theorem C01_H_pf_holds : forall hdr dt, wf_items hdr = true -> wf_dtype dt = true ->
+  H_pf pv eq py_pformat py_eval py_np_dtype (make_header pv py_vstr py_vdescr hdr dt) dt.
+Proof. exact H_pf_holds. Qed.
+
+(* ... and the round trip holds without any hypothesis about pformat / eval / numpy.dtype. *)
+Theorem C01_roundtrip_unconditional : forall hdr dt rows,
+  wf_items hdr = true -> wf_dtype dt = true -> user_hdr_ok pv hdr ->
+  rows <> [] -> rows_fit dt rows -> 0 < rowsize dt ->
+  exists out, sfile_read pv py_vstr py_vint py_np_dtype py_eval
+                (sfile_write pv py_vstr py_vdescr py_pformat hdr dt rows) = Ok out
+              /\ roundtrip_ok pv eq py_vint py_np_dtype hdr dt rows out.
+Proof. exact roundtrip_unconditional. Qed.
+
+(* For the REAL pformat text of a case the contract is decided inside Coq by a verified checker
+   (model _make_header = the real header dict; the verified parser reads the real text back to an
+   equal dict; clause (a)): if it accepts, H_pf holds for that text, and with it the round trip. *)
+Theorem C01_hpf_check_sound : forall real uhdr head dt, hpf_check real uhdr head dt = true ->
+  forall pformat, pformat (make_header pv py_vstr py_vdescr uhdr dt) = real ->
+  H_pf pv eq pformat py_eval py_np_dtype (make_header pv py_vstr py_vdescr uhdr dt) dt.
+Proof. exact hpf_check_sound. Qed.
+
+Theorem C01_roundtrip_real_text : forall real uhdr head dt rows, hpf_check real uhdr head dt = true ->
+  user_hdr_ok pv uhdr -> rows <> [] -> rows_fit dt rows -> 0 < rowsize dt ->
+  exists out, sfile_read pv py_vstr py_vint py_np_dtype py_eval
+                (sfile_write pv py_vstr py_vdescr (fun _ => real) uhdr dt rows) = Ok out
+              /\ roundtrip_ok pv eq py_vint py_np_dtype uhdr dt rows out.
+Proof. exact roundtrip_real_text. Qed.
+
+(* ---- frame conditions and history (Frame.v): the entry points as steps on a file system.
+   Reads change no file; a write changes exactly the file it names. *)
+Theorem C01_read_frame : forall s o, writes o = None -> fst (step s o) = s.
+Proof. exact read_frame. Qed.
+
+Theorem C01_write_frame : forall s o p q, writes o = Some p -> q <> p -> fst (step s o) q = s q.
+Proof. exact write_frame. Qed.
+
+(* The model's answer depends on the call's own arguments only: after ANY history, and with any
+   traffic in between that does not write the path, write + read answers as write + read alone. *)
+Theorem C01_history_independent : forall before between p hdr dt rows,
+  forallb (fun o => negb (touches p o)) between = true ->
+  forall s0,
+  snd (step (run (fst (step (run s0 before) (WriteSelf p hdr dt rows))) between) (ReadSelf p))
+  = snd (step (fst (step fs_empty (WriteSelf p hdr dt rows))) (ReadSelf p)).
+Proof. exact history_independent. Qed.
+
+Theorem C01_history_independent_recfile : forall before between p rows dt nrows,
+  forallb (fun o => negb (touches p o)) between = true ->
+  forall s0,
+  snd (step (run (fst (step (run s0 before) (WriteRec p rows))) between) (ReadRec p dt nrows))
+  = snd (step (fst (step fs_empty (WriteRec p rows))) (ReadRec p dt nrows)).
+Proof. exact history_independent_rec. Qed.
+
+(* The in-place update of the row count (Records::update_row_count) rewrites the SIZE line and
+   leaves every other byte — the rest of the header and all rows — as it is; the file is the one
+   a fresh write with the new count has. *)
+Theorem C01_size_update_frame : forall m n d data, 0 <= m < 10 ^ 20 -> 0 <= n < 10 ^ 20 ->
+  size_update (mk_header m d ++ data) n = mk_header n d ++ data
+  /\ length (size_update (mk_header m d ++ data) n) = length (mk_header m d ++ data)
+  /\ skipn 28 (size_update (mk_header m d ++ data) n) = skipn 28 (mk_header m d ++ data).
+Proof. exact size_update_frame. Qed.
+
+(* ---- rejections.  The row reader rejects a request exactly when the data are shorter than
+   nrows * rowsize, the only error class is ERuntime, and what it accepts are the first nrows * rowsize
+   bytes cut into rows. *)
+Theorem C01_take_rows_rejects : forall rs n f,
+  (take_rows rs n f = Err ERuntime <-> (length f < n * rs)%nat)
+  /\ (forall e, take_rows rs n f = Err e -> e = ERuntime)
+  /\ (forall rows, take_rows rs n f = Ok rows -> length rows = n /\ Forall (fun r => length r = rs) rows
+                                                /\ concat rows = firstn (n * rs) f).
+Proof. exact take_rows_rejects. Qed.
+
+(* A self-describing file whose data region lost its last k bytes (1 <= k <= all of them) is rejected
+   with ERuntime: a truncated file is never read as a shorter or shifted table. *)
+Theorem C01_truncated_rejected : forall d dt rows k, hdr_text_ok d = true ->
+  rows <> [] -> rows_fit dt rows -> 0 < rowsize dt ->
+  (1 <= k <= length (bin_write rows))%nat ->
+  let f := sfile_file d rows in
+  sfile_read_c (firstn (length f - k) f) dt = Err ERuntime.
+Proof. exact truncated_rejected. Qed.
+
 (* The readers evaluated on the many-rows cases (Big.v: the length of the file is asked once, not
    before every row) are the model's readers. *)
 Theorem C01_fast_readers_are_model :
@@ -282,3 +382,39 @@ Example C01_layout_nonvacuous :
       /\ v_start w_contig + Z.of_nat (view_size w_contig * v_item w_contig) <= Z.of_nat (length (v_buf w_contig))
       /\ recfile_write_view_v0 w_contig = [x02; x03]).
 Proof. exact layout_nonvacuous. Qed.
+
+(* Non-vacuity of the unconditional round trip: a header with values of every kind (negative int,
+   float token, None, bool, bytes with NUL/0xFF/END, a tuple holding a str with quote, newline,
+   backslash and UTF-8, a nested dict with key END, a reserved key), a two-field dtype with a
+   sub-array and both byte orders, rows containing the bytes of an END line; and the parser on
+   pformat-style text (adjacent literals, parenthesised values). *)
+Example C01_unconditional_nonvacuous :
+  wf_items u_hdr = true /\ wf_dtype u_dt = true /\ user_hdr_ok pv u_hdr
+  /\ u_rows <> [] /\ rows_fit u_dt u_rows /\ 0 < rowsize u_dt
+  /\ (exists h, sfile_read pv py_vstr py_vint py_np_dtype py_eval
+                  (sfile_write pv py_vstr py_vdescr py_pformat u_hdr u_dt u_rows) = Ok (u_dt, u_rows, h)
+                /\ dget pv (B "n") h = dget pv (B "n") u_hdr /\ dget pv (B "_SIZE") h = Some (PInt 2))
+  /\ pv_parse (B "{'a': ('x' 'y'), 'b': (1), 'c': (1,), 'e': -0.0, 'f': [1, 2]}")
+     = Some (PDict [(B "a", PStr (B "xy")); (B "b", PInt 1); (B "c", PTuple [PInt 1]); (B "e", PFloat (B "-0.0"));
+                    (B "f", PList [PInt 1; PInt 2])]).
+Proof. exact unconditional_nonvacuous. Qed.
+
+Example C01_frame_nonvacuous :
+  forallb (fun o => negb (touches 1%nat o)) [WriteRec 2%nat u_rows; ReadSelf 1%nat; ReadRec 2%nat u_dt None] = true
+  /\ snd (step (run (fst (step fs_empty (WriteSelf 1%nat u_hdr u_dt u_rows)))
+                     [WriteRec 2%nat u_rows; ReadSelf 1%nat; ReadRec 2%nat u_dt None]) (ReadRec 2%nat u_dt None))
+     = ARec (Ok u_rows)
+  /\ 0 <= 2 < 10 ^ 20
+  /\ parse_size (firstn 27 (size_update (mk_header 2 (B "{}") ++ concat u_rows) 12345)) = Ok 12345.
+Proof. exact frame_nonvacuous. Qed.
+
+Example C01_hpf_check_nonvacuous : hpf_check r_text r_uhdr r_head ex_dt = true /\ user_hdr_ok pv r_uhdr.
+Proof. exact hpf_check_nonvacuous. Qed.
+
+Example C01_reject_nonvacuous :
+  hdr_text_ok w_text_value = true /\ ex_rows <> [] /\ rows_fit ex_dt ex_rows /\ 0 < rowsize ex_dt
+  /\ (1 <= 3 <= length (bin_write ex_rows))%nat
+  /\ sfile_read_c (firstn (length (sfile_file w_text_value ex_rows) - 3) (sfile_file w_text_value ex_rows)) ex_dt = Err ERuntime
+  /\ sfile_read_c (sfile_file w_text_value ex_rows) ex_dt = Ok (2, ex_rows)
+  /\ take_rows 2 2 [x01; x02; x03] = Err ERuntime.
+Proof. exact reject_nonvacuous. Qed.
